@@ -55,4 +55,10 @@ META = {
         "note": "Trusted: Lean kernel; extractor (setters); freshness of anonymous names; Each/Sublogger enumeration order (Go map iteration) canonicalised by sorting; the traversal theorem for Each is not proved (correspondence only).",
         "technique": "Lean 4 frame/invariant proofs (induction over histories) on a tree model; differential random histories with full observation of every logger",
     },
+    "C20": {
+        "text": "Partial proof: totality of the formatter for every int64 value in both styles (exact length bound 33 <= regenerated array length; 32 is proved insufficient), sign handling and the unit table are theorems. Invertibility (parse after format) and agreement with time.ParseDuration are decided by differential execution of the Lean model (with Lean's IEEE Float for the parser's one float64 expression), the implementation and the standard parser over boundary-biased values and grammar-generated/mutated strings: those two clauses are not kernel-checked.",
+        "design_ref": "DESIGN.md §7 C20",
+        "note": "Trusted: Lean kernel; extractor (array length, unit table); Lean Float = IEEE binary64; time.ParseDuration as reference. Not proved: round trip, agreement (correspondence only).",
+        "technique": "Lean 4 proof of totality (length bounds by arithmetic on digit counts); differential value-space and grammar sweep for round trip and agreement",
+    },
 }
